@@ -6,3 +6,206 @@
 pub assume_specification<T, F: FnOnce(T) -> bool>[ Option::<T>::is_some_and ](o: Option<T>, f: F) -> (r: bool)
     requires o is Some ==> call_requires(f, (o->0,)),
     ensures match o { Some(x) => call_ensures(f, (x,), r), None => !r };
+
+// ---- T5 wrappers on `slice.iter().filter(p)` (= VpFilter of prelude/hof.rs: the iterator paired with the
+// filter closure).  The external body IS the call to the real std methods.
+/// position of the element that decided the result (a skolem function instead of an existential)
+pub uninterp spec fn vp_hit<T, R>(s: Seq<T>, r: R) -> int;
+impl<'a, T, P: FnMut(&&'a T) -> bool> VpFilter<'a, T, P> {
+    /// `slice.iter().filter(p).any(f)`: true iff some element is accepted by p and then by f
+    /// (elements are visited in order, p first; nothing else is observable for pure closures)
+    #[verifier::external_body]
+    pub fn vp_any<F: FnMut(&'a T) -> bool>(self, f: F) -> (r: bool)
+        requires forall|x: &&'a T| #[trigger] call_requires(self.p, (x,)), forall|x: &'a T| #[trigger] call_requires(f, (x,)),
+        ensures ({
+            let s = self.it.remaining();
+            let p = self.p;
+            if r {
+                let i = vp_hit(s, r);
+                0 <= i < s.len() && call_ensures(p, (&s[i],), true) && call_ensures(f, (s[i],), true)
+            } else {
+                forall|j: int| 0 <= j < s.len() ==> call_ensures(p, (&#[trigger] s[j],), false) || call_ensures(f, (s[j],), false)
+            }
+        }),
+    { self.it.filter(self.p).any(f) }
+
+    /// `slice.iter().filter(p).find_map(f)`: f's result on the FIRST element that p accepts and f maps to
+    /// `Some`; `None` iff there is no such element
+    #[verifier::external_body]
+    pub fn vp_find_map<B, F: FnMut(&'a T) -> Option<B>>(self, f: F) -> (r: Option<B>)
+        requires forall|x: &&'a T| #[trigger] call_requires(self.p, (x,)), forall|x: &'a T| #[trigger] call_requires(f, (x,)),
+        ensures ({
+            let s = self.it.remaining();
+            let p = self.p;
+            match r {
+                Some(b) => ({
+                    let i = vp_hit(s, r);
+                    0 <= i < s.len() && call_ensures(p, (&s[i],), true) && call_ensures(f, (s[i],), Some(b))
+                    && (forall|j: int| 0 <= j < i ==> call_ensures(p, (&#[trigger] s[j],), false) || call_ensures(f, (s[j],), None::<B>))
+                }),
+                None => forall|j: int| 0 <= j < s.len() ==> call_ensures(p, (&#[trigger] s[j],), false) || call_ensures(f, (s[j],), None::<B>),
+            }
+        }),
+    { self.it.filter(self.p).find_map(f) }
+}
+
+/// the first `Some` that g produces on s[k..], as a function
+pub open spec fn first_some<T, V>(s: Seq<T>, g: spec_fn(T) -> Option<V>, k: int) -> Option<V>
+    decreases s.len() - k
+{
+    if k < 0 || k >= s.len() { None } else { match g(s[k]) { Some(v) => Some(v), None => first_some(s, g, k + 1) } }
+}
+/// ... and as the relation the wrappers' contracts establish, over the references a slice iterator yields
+/// (object-level postcondition of one-expression functions; lifted by lemma_find_map_post)
+pub open spec fn find_map_post<T, V>(s: Seq<&T>, g: spec_fn(T) -> Option<V>, r: Option<V>) -> bool {
+    match r {
+        Some(v) => exists|i: int| 0 <= i < s.len() && g(*#[trigger] s[i]) == Some(v) && (forall|j: int| 0 <= j < i ==> g(*#[trigger] s[j]) is None),
+        None => forall|j: int| 0 <= j < s.len() ==> g(*#[trigger] s[j]) is None,
+    }
+}
+pub open spec fn any_post<T>(s: Seq<&T>, g: spec_fn(T) -> bool, r: bool) -> bool {
+    if r { exists|i: int| 0 <= i < s.len() && g(*#[trigger] s[i]) } else { forall|j: int| 0 <= j < s.len() ==> !g(*#[trigger] s[j]) }
+}
+pub proof fn lemma_first_some_from<T, V>(s: Seq<T>, g: spec_fn(T) -> Option<V>, i: int, k: int)
+    requires 0 <= k <= i <= s.len(), forall|j: int| k <= j < i ==> g(#[trigger] s[j]) is None,
+    ensures first_some(s, g, k) == (if i < s.len() { first_some(s, g, i) } else { None }),
+    decreases i - k
+{
+    if k < i { lemma_first_some_from(s, g, i, k + 1); }
+}
+pub proof fn lemma_find_map_post<T, V>(v: Seq<T>, g: spec_fn(T) -> Option<V>, r: Option<V>)
+    requires find_map_post(v.as_ref(), g, r),
+    ensures r == first_some(v, g, 0),
+{
+    let s = v.as_ref();
+    match r {
+        Some(x) => {
+            let i = choose|i: int| 0 <= i < s.len() && g(*#[trigger] s[i]) == Some(x) && (forall|j: int| 0 <= j < i ==> g(*#[trigger] s[j]) is None);
+            assert forall|j: int| 0 <= j < i implies g(#[trigger] v[j]) is None by { let y = s[j]; }
+            lemma_first_some_from(v, g, i, 0);
+            assert(*s[i] == v[i]);
+        }
+        None => {
+            assert forall|j: int| 0 <= j < v.len() implies g(#[trigger] v[j]) is None by { let y = s[j]; }
+            lemma_first_some_from(v, g, v.len() as int, 0);
+        }
+    }
+}
+pub proof fn lemma_any_post<T>(v: Seq<T>, g: spec_fn(T) -> bool, r: bool)
+    requires any_post(v.as_ref(), g, r),
+    ensures r == (exists|i: int| 0 <= i < v.len() && g(#[trigger] v[i])),
+{
+    let s = v.as_ref();
+    if r {
+        let i = choose|i: int| 0 <= i < s.len() && g(*#[trigger] s[i]);
+        assert(*s[i] == v[i]);
+    } else {
+        assert forall|j: int| 0 <= j < v.len() implies !g(#[trigger] v[j]) by { let y = s[j]; }
+    }
+}
+
+// ---- `to_string()` (ToString through Display): vstd gives the blanket impl the postcondition
+// `to_string_from_display_ensures(t, res)` and pins it down for `str` only.  String's Display writes the string.
+pub mod to_string_ax {
+    use super::*;
+    pub broadcast axiom fn axiom_string_to_string(t: &String, res: String)
+        ensures #[trigger] vstd::string::to_string_from_display_ensures::<String>(t, res) <==> (t@ == res@);
+}
+pub use to_string_ax::*;
+
+// ---- T5 wrappers on `slice.iter()` itself ------------------------------------------------------------------
+/// concatenation of the vectors' contents, in order
+pub open spec fn flat<B>(o: Seq<Vec<B>>) -> Seq<B>
+    decreases o.len()
+{
+    if o.len() == 0 { Seq::empty() } else { flat(o.drop_last()) + o.last()@ }
+}
+pub trait VpSliceIterExt<'a, T: 'a>: Sized {
+    fn vp_filter_map<B, F: FnMut(&'a T) -> Option<B>>(self, f: F) -> (r: std::vec::IntoIter<B>)
+        requires forall|x: &'a T| #[trigger] call_requires(f, (x,));
+    fn vp_flat_map<B, F: FnMut(&'a T) -> Vec<B>>(self, f: F) -> (r: std::vec::IntoIter<B>)
+        requires forall|x: &'a T| #[trigger] call_requires(f, (x,));
+    fn vp_find_map<B, F: FnMut(&'a T) -> Option<B>>(self, f: F) -> (r: Option<B>)
+        requires forall|x: &'a T| #[trigger] call_requires(f, (x,));
+}
+impl<'a, T: 'a> VpSliceIterExt<'a, T> for core::slice::Iter<'a, T> {
+    /// `slice.iter().filter_map(f)` driven to the end (the `.collect()` that follows in the source): f is called
+    /// once on every element, in order; the results that are `Some` are yielded, in order (vp_fm_post/somes:
+    /// prelude/iter_ext.rs)
+    #[verifier::external_body]
+    fn vp_filter_map<B, F: FnMut(&'a T) -> Option<B>>(self, f: F) -> (r: std::vec::IntoIter<B>)
+        ensures
+            r.obeys_prophetic_iter_laws(), r.decrease() is Some,
+            vp_fm_post(self.remaining(), f, r.remaining()),
+    { self.filter_map(f).collect::<Vec<B>>().into_iter() }
+
+    /// `slice.iter().flat_map(f)` for an f that returns vectors, driven to the end: f is called once on every
+    /// element, in order; the vectors' elements are yielded in order
+    #[verifier::external_body]
+    fn vp_flat_map<B, F: FnMut(&'a T) -> Vec<B>>(self, f: F) -> (r: std::vec::IntoIter<B>)
+        ensures
+            r.obeys_prophetic_iter_laws(), r.decrease() is Some,
+            exists|o: Seq<Vec<B>>| #![trigger flat(o)] o.len() == self.remaining().len()
+                && (forall|j: int| 0 <= j < o.len() ==> call_ensures(f, (self.remaining()[j],), #[trigger] o[j]))
+                && r.remaining() == flat(o),
+    { self.flat_map(f).collect::<Vec<B>>().into_iter() }
+
+    /// `slice.iter().find_map(f)`: f's result on the FIRST element it maps to `Some`
+    #[verifier::external_body]
+    fn vp_find_map<B, F: FnMut(&'a T) -> Option<B>>(self, f: F) -> (r: Option<B>)
+        ensures ({
+            let s = self.remaining();
+            match r {
+                Some(b) => ({
+                    let i = vp_hit(s, r);
+                    0 <= i < s.len() && call_ensures(f, (s[i],), Some(b))
+                    && (forall|j: int| 0 <= j < i ==> call_ensures(f, (#[trigger] s[j],), None::<B>))
+                }),
+                None => forall|j: int| 0 <= j < s.len() ==> call_ensures(f, (#[trigger] s[j],), None::<B>),
+            }
+        }),
+    { let mut it = self; it.find_map(f) }
+}
+
+/// the `Some` results of g on s, in order, as a function
+pub open spec fn filter_map_spec<T, V>(s: Seq<T>, g: spec_fn(T) -> Option<V>) -> Seq<V>
+    decreases s.len()
+{
+    if s.len() == 0 { Seq::empty() } else {
+        match g(s.last()) { Some(v) => filter_map_spec(s.drop_last(), g).push(v), None => filter_map_spec(s.drop_last(), g) }
+    }
+}
+pub open spec fn opt_map<B, V>(o: Option<B>, vb: spec_fn(B) -> V) -> Option<V> {
+    match o { Some(b) => Some(vb(b)), None => None }
+}
+/// ... and as the relation vp_filter_map + collect establish (r seen through the element view vb)
+pub open spec fn filter_map_post<T, B, V>(s: Seq<&T>, g: spec_fn(T) -> Option<V>, vb: spec_fn(B) -> V, r: Seq<B>) -> bool {
+    exists|o: Seq<Option<B>>| #![trigger somes(o)]
+        o.len() == s.len() && (forall|j: int| 0 <= j < s.len() ==> opt_map(#[trigger] o[j], vb) == g(*s[j])) && r == somes(o)
+}
+pub proof fn lemma_somes_filter_map<T, B, V>(v: Seq<T>, o: Seq<Option<B>>, g: spec_fn(T) -> Option<V>, vb: spec_fn(B) -> V)
+    requires o.len() == v.len(), forall|j: int| 0 <= j < v.len() ==> opt_map(#[trigger] o[j], vb) == g(v[j]),
+    ensures somes(o).map_values(vb) =~= filter_map_spec(v, g),
+    decreases v.len(),
+{
+    if v.len() > 0 {
+        let v1 = v.drop_last(); let o1 = o.drop_last();
+        assert forall|j: int| 0 <= j < v1.len() implies opt_map(#[trigger] o1[j], vb) == g(v1[j]) by {
+            assert(o1[j] == o[j]); assert(v1[j] == v[j]);
+        }
+        lemma_somes_filter_map(v1, o1, g, vb);
+        let j = v.len() - 1;
+        assert(o.last() == o[j]);
+        assert(opt_map(o[j], vb) == g(v[j]));
+    }
+}
+pub proof fn lemma_filter_map_post<T, B, V>(v: Seq<T>, g: spec_fn(T) -> Option<V>, vb: spec_fn(B) -> V, r: Seq<B>)
+    requires filter_map_post(v.as_ref(), g, vb, r),
+    ensures r.map_values(vb) =~= filter_map_spec(v, g),
+{
+    let s = v.as_ref();
+    let o = choose|o: Seq<Option<B>>| #![trigger somes(o)]
+        o.len() == s.len() && (forall|j: int| 0 <= j < s.len() ==> opt_map(#[trigger] o[j], vb) == g(*s[j])) && r == somes(o);
+    assert forall|j: int| 0 <= j < v.len() implies opt_map(#[trigger] o[j], vb) == g(v[j]) by { assert(*s[j] == v[j]); }
+    lemma_somes_filter_map(v, o, g, vb);
+}
